@@ -17,7 +17,7 @@ for f in $(git -C $V diff --name-only $base fix-$g | grep -v "^evidence/"); do
       # remove the lines the agent removed
       git -C $V diff $base fix-$g -- $f | grep "^-b" | sed 's/^-//' | while read l; do k=$(echo $l | cut -d' ' -f1); grep -v "^$k " /verif/$f > /tmp/unres.txt; cp /tmp/unres.txt /verif/$f; done; echo "unresolved list updated";;
     NOTES-*) mkdir -p /verif/notes; git -C $V show fix-$g:$f > /verif/notes/$f; echo "notes $f";;
-    DESIGN.md) git -C $V diff $base fix-$g -- DESIGN.md > /tmp/design_$g.diff; patch -p1 -s -d /verif < /tmp/design_$g.diff || echo "DESIGN patch failed (see /tmp/design_$g.diff)";;
+    DESIGN.md) git -C $V diff $base fix-$g -- DESIGN.md > /verif/notes/DESIGN-$g.diff; echo "DESIGN diff saved to notes/";;
     *) echo "OTHER FILE $f (not merged)";;
   esac
 done
